@@ -1,6 +1,6 @@
 (* C01 -- property theorems only.  Proofs live in C01/Proofs*.v. *)
 From Coq Require Import NArith List.
-From DV Require Import Base.Outcome Base.Bytes Base.Names Base.PName C01.Gen C01.Model C01.Proofs.
+From DV Require Import Base.Outcome Base.Bytes Base.Names Base.PName C01.Gen C01.Model C01.Proofs C01.Proofs2 C01.Proofs3.
 Import ListNotations.
 Local Open Scope N_scope.
 
@@ -44,3 +44,50 @@ Print Assumptions C01_pointer_bits.
 Theorem C01_source_constants : gen_matches_pname = true.
 Proof. exact gen_matches_pname_ok. Qed.
 Print Assumptions C01_source_constants.
+
+(* Label::iter_slice / SliceLabelsIter: for every slice and every start the
+   iterator yields a finite list of labels (no panic, no endless stream). *)
+Theorem C01_iter_slice_finite : forall m start, exists ls, iter_slice m start = Ok ls.
+Proof. exact iter_slice_finite. Qed.
+Print Assumptions C01_iter_slice_finite.
+
+(* the error fuse of QuestionSection / RecordSection: after the first Err the
+   iterator holds that error and every later next is None *)
+Theorem C01_fuse_after_error : forall (A : Type) (parse : N -> outcome A) (endof : A -> N) s e s',
+  sec_next parse endof s = Ok (Some (IErr e), s') ->
+  s_err s' = Some e /\ sec_next parse endof s' = Ok (None, s').
+Proof. exact @fuse_after_error. Qed.
+Print Assumptions C01_fuse_after_error.
+
+Theorem C01_fuse_sticky : forall (A : Type) (parse : N -> outcome A) (endof : A -> N) st e,
+  s_err st = Some e -> sec_next parse endof st = Ok (None, st).
+Proof. exact @fuse_sticky. Qed.
+Print Assumptions C01_fuse_sticky.
+
+(* a parsed record's data lies within the parser's limit, hence in the message *)
+Theorem C01_record_extent_within : forall m pos lim r,
+  lim <= mlen m -> record_parse m pos lim = Ok r ->
+  rr_data r + rr_rdlen r = rr_end r /\ rr_end r <= lim /\ rr_end r <= mlen m.
+Proof. exact record_extent_within. Qed.
+Print Assumptions C01_record_extent_within.
+
+(* what ParsedRecord::parse accepts, ParsedRecord::skip accepts, with the same
+   end position (the unwraps behind next_section after a clean iteration) *)
+Theorem C01_parse_accepts_skip_accepts : forall m pos lim r,
+  record_parse m pos lim = Ok r -> record_skip m pos lim = Ok (rr_end r).
+Proof. exact parse_accepts_skip_accepts. Qed.
+Print Assumptions C01_parse_accepts_skip_accepts.
+
+(* canonical_name's loop bound ANCOUNT + 1 is computed without overflow *)
+Theorem C01_canonical_rounds : forall an, canonical_rounds an = Ok (an + 1).
+Proof. exact canonical_rounds_eq. Qed.
+Print Assumptions C01_canonical_rounds.
+
+(* every modelled read-side operation on every octet string: no panic, no
+   fuel exhaustion (header, counts, questions, the three record sections with
+   their iterators and fuses, sections(), first/sole question, is_answer,
+   MessageIter, canonical_name, opt and its options, the slice label iterator,
+   unchecked iteration of every returned name) *)
+Theorem C01_read_all_total : forall m, no_panic (read_all m).
+Proof. exact read_all_total. Qed.
+Print Assumptions C01_read_all_total.
